@@ -46,6 +46,13 @@ Theorem C12_componentwise_is_orthant : forall n x, length x = n ->
 Proof. intros n x. rewrite gen_is_inside_row_ok. exact (componentwise_is_orthant n x). Qed.
 Print Assumptions C12_componentwise_is_orthant.
 
+(* the bundled orders (ComponentwiseOrder, ConeTheta2DOrder, ConeOrder3D, ConeOrder3DIceCream) define only
+   their constructor: dominates / get_pareto_set are the inherited facet-test routines the theorems are about
+   (recognised structurally by the translator; an override makes this definition disappear) *)
+Theorem C12_bundled_orders_inherit_facet_test : bundled_orders_inherit_facet_test = true.
+Proof. reflexivity. Qed.
+Print Assumptions C12_bundled_orders_inherit_facet_test.
+
 Theorem C12_cone3d_acute : 
   cone3d_acute_normalised = true /\ rows_equal_norm cone3d_acute_raw /\ 0 < sqnorm (hd [] cone3d_acute_raw)
   /\ diagonal_inside cone3d_acute_raw /\ length cone3d_acute_raw = 3%nat.
